@@ -88,7 +88,7 @@ MUTANTS = {
     "C03": {
         "d22_reverted": [("_core.py", "        info.set_server_if_missing()\n        replaced = self.registry.async_get_info_name(info.key)", "        replaced = self.registry.async_get_info_name(info.key)")],
         "d29_reverted": [("_handlers/query_handler.py", "        if type_ in (_TYPE_PTR, _TYPE_ANY) and question_lower_name == _SERVICE_TYPE_ENUMERATION_NAME:", "        if type_ == _TYPE_PTR and question_lower_name == _SERVICE_TYPE_ENUMERATION_NAME:")],
-        "d30_additionals_not_purged": [("_handlers/multicast_outgoing_queue.py", "                additionals.difference_update(withdrawn)", "                pass")],
+        "d30_additionals_not_purged": [("_handlers/multicast_outgoing_queue.py", "{kept(additional) for additional in additionals if not gone(additional)}", "{kept(additional) for additional in additionals}")],
         "d30_enumeration_not_purged": [("_core.py", "            withdrawn.append(self._service_type_enumeration_pointer(info.type))", "            pass")],
         "question_name_not_lowered": [("_handlers/query_handler.py", "        question_lower_name = name.lower()", "        question_lower_name = name")],
         "suppress_ge": [("_dns.py", "        return other.ttl > (record.ttl / 2)", "        return other.ttl >= (record.ttl / 2)")],
